@@ -76,7 +76,7 @@ fn mutate_stmt(body: &mut [SNode], tape: &mut Tape, spec: &LangSpec) -> Option<S
                 return match &mut s.kind {
                     Stmt::Call { args, .. } => { if choice < 2 && !args.is_empty() { args.pop(); Some("drop a call argument".into()) } else { args.push(Expr::LitI(0)); Some("add a call argument".into()) } }
                     Stmt::Decl { ty, .. } => { *ty = ty.other(); Some("flip declaration type".into()) }
-                    Stmt::Times { count, clobber, .. } => { if choice < 2 || clobber.is_none() { *count = Expr::LitF(2.0); Some("float times count".into()) } else { *clobber = Some(VarUse::plain(other_ty_reg(spec, Ty::Float, &mut t))); Some("float times clobber".into()) } }
+                    Stmt::Times { count, clobber, .. } => { if choice == 3 && clobber.is_some() { *count = Expr::LitF(2.0); *clobber = Some(VarUse::plain(other_ty_reg(spec, Ty::Float, &mut t))); Some("float times count AND float counter (they agree with each other, but a count must be an integer)".into()) } else if choice < 2 || clobber.is_none() { *count = Expr::LitF(2.0); Some("float times count".into()) } else { *clobber = Some(VarUse::plain(other_ty_reg(spec, Ty::Float, &mut t))); Some("float times clobber".into()) } }
                     Stmt::Assign { var, .. } => { let t0 = var.read_ty().unwrap_or(Ty::Int); *var = VarUse::plain(other_ty_reg(spec, t0.other(), &mut t)); Some("assignment target of the other type".into()) }
                     Stmt::If { arms, .. } => { arms[0].1 = Expr::LitF(1.0); Some("float condition".into()) }
                     Stmt::While { cond, .. } | Stmt::DoWhile { cond, .. } if !contains_predec(cond) => { *cond = Expr::Bin("+".into(), Box::new(Expr::LitF(1.0)), Box::new(Expr::LitF(0.0))); Some("float loop condition".into()) }
